@@ -36,6 +36,35 @@ pub fn at_us(us: i64) -> SystemTime {
 }
 
 // ------------------------------------------------------------------------------------------
+// u128 values travel as decimal strings in JSON (serde_json's Value cannot hold them)
+
+pub mod u128s {
+    use serde::{Deserialize, Deserializer, Serializer};
+    pub fn serialize<S: Serializer>(v: &u128, s: S) -> Result<S::Ok, S::Error> {
+        s.serialize_str(&v.to_string())
+    }
+    pub fn deserialize<'de, D: Deserializer<'de>>(d: D) -> Result<u128, D::Error> {
+        let s = String::deserialize(d)?;
+        s.parse::<u128>().map_err(serde::de::Error::custom)
+    }
+}
+
+pub mod opt_u128s {
+    use serde::{Deserialize, Deserializer, Serializer};
+    pub fn serialize<S: Serializer>(v: &Option<u128>, s: S) -> Result<S::Ok, S::Error> {
+        match v {
+            Some(v) => s.serialize_some(&v.to_string()),
+            None => s.serialize_none(),
+        }
+    }
+    pub fn deserialize<'de, D: Deserializer<'de>>(d: D) -> Result<Option<u128>, D::Error> {
+        let s = Option::<String>::deserialize(d)?;
+        match s {
+            Some(s) => s.parse::<u128>().map(Some).map_err(serde::de::Error::custom),
+            None => Ok(None),
+        }
+    }
+}
 
 #[derive(Debug, Clone, PartialEq, Eq, Serialize, Deserialize)]
 pub struct OtiSpec {
@@ -426,6 +455,7 @@ pub struct SenderSpec {
     pub queues: Vec<(u32, u32)>,
     /// 16, 32, 48, 64, 80, 112
     pub toi_width: u8,
+    #[serde(with = "opt_u128s")]
     pub toi_initial: Option<u128>,
     pub groups: Option<Vec<String>>,
 }
